@@ -833,7 +833,7 @@ class Gen:
                 if rnd.random() < 0.5:
                     L.append("allreg|%d" % r)
                     L.append("allsub|%d" % r)
-                sv = rnd.choice(pool) if pool else (1, 1)
+                sv = rnd.choice(pool) if pool else (0, 1)          # (never an identity of its own: identities belong to the values the history creates)
                 if rnd.random() < 0.5:
                     sv = (0, sv[1])
                 L.append("subscribed|%d|%s|%s|%d %d" % (r, sreq(rq), "N" if rnd.random() < 0.15 else p, sv[0], sv[1]))
